@@ -926,6 +926,15 @@ def install():
             raise
     async_.AsyncResult.wait = a_wait
 
+    orig_add = colls.RefCountingColl.add
+
+    def rc_add(self, key, obj):
+        r = active()
+        if r is not None and self is r.conn._local_objects:
+            r.event("lent %s o%d" % (r.val(key), r.oid(obj)))
+        return orig_add(self, key, obj)
+    colls.RefCountingColl.add = rc_add
+
     orig_decref = colls.RefCountingColl.decref
 
     def rc_decref(self, key, count=1):
